@@ -214,6 +214,29 @@ pub fn suite_c04(ctx: &mut Ctx) {
             run_history(ctx, ty, 0, &steps, 1, h % 5 == 0);
             ctx.sink.free = true;
         }
+        // directed: single full-precision products at every total scale (every alignment of the product
+        // against the quire's 64-bit limbs, with and without a mantissa carry): the bit image must be exact
+        {
+            let maxs = ((ty.n - 2) << ty.es) as i32;
+            for s in -maxs..=maxs {
+                for v in 0..ctx.q(4, 24) {
+                    ctx.sink.boundary();
+                    ctx.sink.free = false;
+                    let sa = ctx.rng.gen_range(-(ty.n as i32)..ty.n as i32).clamp(-maxs, maxs);
+                    let sb = (s - sa).clamp(-maxs, maxs);
+                    let fr = |ctx: &mut Ctx, k: usize| match k % 4 { 0 => u64::MAX, 1 => ctx.rng.gen::<u64>() | 1 | (1 << 63), 2 => ctx.rng.gen::<u64>(), _ => 1 };
+                    // (from_scale takes the fraction left-aligned; low bits that do not fit are cut, so force
+                    //  the last representable fraction bit to 1 afterwards)
+                    let mut a = gen::from_scale(ty.n, ty.es, sa, fr(ctx, v));
+                    let mut b = gen::from_scale(ty.n, ty.es, sb, fr(ctx, v / 2 + 1));
+                    if v % 3 != 2 { a |= 1; b |= 1; }
+                    if ctx.rng.gen::<bool>() { a = gen::neg(ty.n, a); }
+                    let steps = vec![Step { op: if v % 2 == 0 { "q_add" } else { "q_sub" }, sp: ["pp", "m", "tr"][v % 3], x: vec![a, b], bs: vec![] }];
+                    run_history(ctx, ty, 0, &steps, 0, false);
+                    ctx.sink.free = true;
+                }
+            }
+        }
         // directed: carry/borrow chains around zero and at the top
         ctx.sink.boundary();
         ctx.sink.free = false;
@@ -253,6 +276,47 @@ pub fn suite_c12(ctx: &mut Ctx) {
             ctx.sink.free = false;
             qcall(ctx, &mut q, 0, ty, "q_to_posit", if i % 16 == 3 { "tr" } else { "m" }, &[], &[], &[]);
             ctx.sink.free = true;
+        }
+        // directed: states with a single non-zero limb (a power of two at each end of each 64-bit limb of the
+        // fixed-point image, and maxpos^2 / minpos^2), negated twice and cancelled: carries across every limb
+        {
+            let maxs = ((ty.n - 2) << ty.es) as i32;
+            let qf = 2 * maxs;
+            let w = (ty.n * ty.n / 2) as i32;
+            let mut scales: Vec<i32> = vec![2 * maxs, -2 * maxs, 0];
+            let mut pos = 0;
+            while pos < w - 1 {
+                for j in [0, 1, 62, 63] {
+                    scales.push(pos + j - qf);
+                }
+                pos += 64;
+            }
+            for (h, &sc) in scales.iter().enumerate() {
+                if sc > 2 * maxs || sc < -2 * maxs {
+                    continue;
+                }
+                let sa = (sc / 2).clamp(-maxs, maxs);
+                let sb = (sc - sa).clamp(-maxs, maxs);
+                // powers of two need scales on the exponent grid of a long regime: from_scale truncates; use what it gives
+                let a = gen::from_scale(ty.n, ty.es, sa, 0);
+                let b = gen::from_scale(ty.n, ty.es, sb, 0);
+                for sign in [false, true] {
+                    ctx.sink.boundary();
+                    ctx.sink.free = false;
+                    let mut q = QAny::new(ty.name);
+                    qcall(ctx, &mut q, 0, ty, "q_init", "m", &[], &[], &[]);
+                    qcall(ctx, &mut q, 0, ty, if sign { "q_sub" } else { "q_add" }, "pp", &[a, b], &[], &[]);
+                    qcall(ctx, &mut q, 0, ty, "q_neg", if h % 2 == 0 { "m" } else { "tr" }, &[], &[], &[]);
+                    qcall(ctx, &mut q, 0, ty, "q_to_posit", "m", &[], &[], &[]);
+                    qcall(ctx, &mut q, 0, ty, if sign { "q_sub" } else { "q_add" }, "pp", &[a, b], &[], &[]);
+                    qcall(ctx, &mut q, 0, ty, "q_is_zero", "m", &[], &[], &[]);
+                    qcall(ctx, &mut q, 0, ty, "q_add", "pp", &[a, b], &[], &[]);
+                    qcall(ctx, &mut q, 0, ty, "q_neg", "m", &[], &[], &[]);
+                    qcall(ctx, &mut q, 0, ty, "q_neg", "m", &[], &[], &[]);
+                    qcall(ctx, &mut q, 0, ty, "q_split2", "m", &[], &[], &[]);
+                    ctx.sink.free = true;
+                }
+            }
         }
         // neg / clear / bits round trip / split at every kind of reachable state
         let nh = ctx.q(2500, 50_000);
